@@ -28,7 +28,8 @@ func slotOfKey(h *hist, key string) int {
 // checkBurst decides one burst of concurrent readers (interval oracle).
 func checkBurst(h *hist, d *burstDB, c *kit.Case, mode string, readers []*rRec) {
 	// one more, sequential, reader per key after the burst: served from the cache if anything was cached
-	if mode != "outage" {
+	wf := writesFail(mode)
+	if mode != "outage" && !wf {
 		seen := map[string]bool{}
 		for _, rr := range readers[:len(readers):len(readers)] {
 			if seen[rr.Key] || rr.Kind == "index" {
@@ -145,12 +146,17 @@ func checkBurst(h *hist, d *burstDB, c *kit.Case, mode string, readers []*rRec) 
 				if !ok {
 					viol("C06/conc/not-found-without-query", fmt.Sprintf("reader %d returned not-found, no query said so", rr.ID))
 				}
+			case wf:
+				// the refused SET of the primary entry is passed on by the index path, and failed writes may
+				// open the client's breaker: a store error instead of a result is legitimate
+				c.Obs("burst_store_errors_while_writes_fail", 1)
 			default:
 				viol("C06/conc/unexpected-error", fmt.Sprintf("reader %d returned %v", rr.ID, rr.err))
 			}
 		}
 		// a cached row / not-found marker is served without touching the database
-		{
+		// (while the store refuses writes nothing gets cached: every late reader queries)
+		if !wf {
 			for _, q2 := range qs {
 				r2 := readers[q2.Owner]
 				for _, q1 := range qs {
@@ -206,6 +212,10 @@ func checkBurst(h *hist, d *burstDB, c *kit.Case, mode string, readers []*rRec) 
 	c.Obs("burst_queries", int64(len(qs)))
 	c.Obs("burst_followers_sharing_a_query", int64(followers))
 	c.Obs("burst_late_readers_served_from_cache", int64(lateHits))
+	if wf {
+		c.Obs("bursts_store_refuses_writes", 1)
+		c.Obs("burst_followers_sharing_a_query_store_refuses_writes", int64(followers))
+	}
 	if len(h.sts) > 1 {
 		c.Obs("bursts_across_conns", 1)
 		c.Obs("burst_followers_sharing_a_query_across_conns", int64(crossFollowers))
